@@ -552,10 +552,14 @@ func (c Component) Hash() uint64 {
 	return h.Sum64()
 }
 
-// HashInto hashes the current component into the hasher
+// HashInto hashes the current component into the hasher.
+// Type and length go in front of the value, so that the hash of a name runs
+// over a prefix-free code of its components: two different component
+// sequences never feed the hasher the same bytes.
 func (c Component) HashInto(h hash.Hash) {
-	tbuf := []byte{0, 0, 0, 0, 0, 0, 0, 0}
+	tbuf := []byte{0, 0, 0, 0, 0, 0, 0, 0, 0, 0, 0, 0, 0, 0, 0, 0}
 	binary.BigEndian.PutUint64(tbuf, uint64(c.Typ))
+	binary.BigEndian.PutUint64(tbuf[8:], uint64(len(c.Val)))
 	h.Write(tbuf)
 	h.Write(c.Val)
 }
